@@ -4,11 +4,12 @@ use refmodel::strings::*;
 
 lang_kernel_ascii_str!(c01_unquoted_key_u4, any_utf8, 4, 6, unquoted_key, r_unquoted_key);
 
-/// escape-seq-char: all strings <= 5 ASCII bytes (covers every one-letter escape and \uXXXX)
+/// escape-seq-char: all well-formed UTF-8 strings <= 5 bytes (covers every one-letter escape and \uXXXX)
 #[kani::proof]
 #[kani::unwind(7)]
-pub fn c02_escape_seq_char_a5() {
-    let (buf, len) = any_ascii::<5>();
+#[kani::stub(core::str::from_utf8, stub_from_utf8)]
+pub fn c02_escape_seq_char_u5() {
+    let (buf, len) = any_utf8::<5>();
     let s = &buf[..len];
     match hooks::escape_seq_char(as_str(s)) {
         Outcome::Ok(c, n) => {
@@ -27,8 +28,9 @@ pub fn c02_escape_seq_char_a5() {
 /// hexescape::<4>: every 4-hex-digit code (surrogates rejected)
 #[kani::proof]
 #[kani::unwind(7)]
-pub fn c02_hexescape4_a5() {
-    let (buf, len) = any_ascii::<5>();
+#[kani::stub(core::str::from_utf8, stub_from_utf8)]
+pub fn c02_hexescape4_u5() {
+    let (buf, len) = any_utf8::<5>();
     let s = &buf[..len];
     match hooks::hexescape4(as_str(s)) {
         Outcome::Ok(c, n) => {
@@ -46,9 +48,14 @@ pub fn c02_hexescape4_a5() {
 /// hexescape::<8>: shape = 8 bytes of the HEXDIG class (symbolic) + one free byte
 #[kani::proof]
 #[kani::unwind(11)]
+#[kani::stub(core::str::from_utf8, stub_from_utf8)]
 pub fn c02_hexescape8_shape9() {
-    let (buf, len) = any_ascii::<9>();
-    kani::assume(len >= 8);
+    // 7 HEXDIG bytes, then two free bytes such that the whole is well-formed UTF-8: the last
+    // window byte can be ASCII or the first byte of a 2-byte character that straddles the window
+    let buf: [u8; 9] = kani::any();
+    let len: usize = kani::any();
+    kani::assume(len == 8 || len == 9);
+    kani::assume(refmodel::utf8_valid(&buf[..len]));
     let s = &buf[..len];
     let mut i = 0;
     while i < 7 {
